@@ -1,0 +1,56 @@
+//go:build verif
+
+package verifhook
+
+import (
+	"github.com/open2b/scriggo/internal/runtime"
+)
+
+// RenderInstr describes one Text, Show or CallMacro instruction of a compiled
+// function (add-only hook for the render engine of /verif).
+type RenderInstr struct {
+	Op           string // "Text", "Show", "CallMacro"
+	Text         []byte // Text: the text
+	C            int8   // Text and Show: the C operand (URL flags / render context)
+	B            int8   // CallMacro: the B operand (format of the caller's context or ReturnString)
+	CalleeFormat int    // CallMacro: Format of the called function
+	CalleeMacro  bool   // CallMacro: Macro flag of the called function
+	FuncFormat   int    // Format of the function containing the instruction
+	FuncMacro    bool   // Macro flag of the function containing the instruction
+}
+
+// RenderInstrs returns the Text, Show and CallMacro instructions of the
+// compiled function of a template or program and of every function reachable
+// through the Functions tables.
+func RenderInstrs(t interface{ VerifFunction() *runtime.Function }) []RenderInstr {
+	var out []RenderInstr
+	seen := map[*runtime.Function]bool{}
+	var walk func(fn *runtime.Function)
+	walk = func(fn *runtime.Function) {
+		if fn == nil || seen[fn] {
+			return
+		}
+		seen[fn] = true
+		for _, in := range fn.Body {
+			switch in.Op {
+			case runtime.OpText:
+				i := int(uint8(in.A))<<8 | int(uint8(in.B))
+				var txt []byte
+				if i < len(fn.Text) {
+					txt = fn.Text[i]
+				}
+				out = append(out, RenderInstr{Op: "Text", Text: txt, C: in.C, FuncFormat: int(fn.Format), FuncMacro: fn.Macro})
+			case runtime.OpShow, -runtime.OpShow:
+				out = append(out, RenderInstr{Op: "Show", C: in.C, FuncFormat: int(fn.Format), FuncMacro: fn.Macro})
+			case runtime.OpCallMacro:
+				callee := fn.Functions[uint8(in.A)]
+				out = append(out, RenderInstr{Op: "CallMacro", B: in.B, CalleeFormat: int(callee.Format), CalleeMacro: callee.Macro, FuncFormat: int(fn.Format), FuncMacro: fn.Macro})
+			}
+		}
+		for _, f := range fn.Functions {
+			walk(f)
+		}
+	}
+	walk(t.VerifFunction())
+	return out
+}
